@@ -406,7 +406,7 @@ def handle (S : Session) (toks : List String) : Session × String :=
       let sets := match out.sets with
         | none => "none"
         | some l => String.intercalate " / " (l.map showAttr)
-      (S, String.intercalate "," (out.seeds.map showState) ++ " | " ++ sets)
+      (S, String.intercalate "," (out.seeds.map showState) ++ " | " ++ sets ++ " | hyp=" ++ (if symHypB N p ms cs then "1" else "0"))
     | _, _, _ => bad
   | "ASEEDS" :: sz :: rest =>
     let minsT := rest.takeWhile (· ≠ ";")
